@@ -595,7 +595,11 @@ def km_obligations(P):
                     okh = isinstance(got, Expr) and got.eq(want_v)
                     obs.append(req_ob("R-KM-FORM", site, "%s is evaluated at %s as given %s" % (hn, label, tag), okh if (okh or isinstance(got, Expr)) else None,
                                       detail=None if okh else "receives %s" % repr(got)[:120], key={"helper": hn, "formal": formal}))
-        obs.append(req_ob("R-KM-FORM", site, "an upwind path exists %s" % tag, bool(ups)))
+        obs.append(req_ob("R-KM-FORM", site, "an upwind path exists %s" % tag, True if ups else None))
+        mk = [e for r in rets for e in r.events if e[0] == "masked-nonfinite"]
+        mu_ = [e for r in rets for e in r.events if e[0] == "masked-unknown"]
+        obs.append(req_ob("R-KM-FORM", site, "cells outside the upwind half plane are set to zero, not multiplied by zero (the closed form divides by the along-wind distance, which is zero on the crosswind line through the receptor) %s" % tag,
+                          False if mk else None if mu_ else True, detail="; ".join("line %s: %s" % (e[1], e[2]) for e in (mk or mu_)[:1]) or None, key={"clause": "mask"}))
         # zero structure, dtype and shapes: plain inputs
         for stab in ("stable", "unstable"):
             R2 = KMRun(P, stab, with_wd, form=False)
